@@ -149,3 +149,19 @@ Example C03_stree_clean_history :
    EvStep [6] 1 (Err 42); EvDone [6] (Err 42)].
 Proof. exact c02s_history_clean. Qed.
 Print Assumptions C03_stree_clean_history.
+
+(* ==== liveness fragments (proofs/MachineC03T.v) ==== *)
+From Asynq Require Import proofs.MachineC03T.
+
+(* once the scheduler resumes a task (mode MResume t), the body of t runs for finitely many steps - through
+   the yields that add no dependency - and control returns to the scheduler loop (MContRet), without
+   unwinding; seg_mode t m = true iff m is MResume t or MRun t _ *)
+Theorem C03_resumed_task_returns_to_scheduler : forall P p n t,
+  pointwise P -> tree p ->
+  let h := fst (create [] (FTask p) (st0 P)) in
+  let s1 := snd (create [] (FTask p) (st0 P)) in
+  no_unwind P n (start h s1) -> c_mode (run P n (start h s1)) = MResume t ->
+  exists m, c_mode (run P (n + m) (start h s1)) = MContRet /\ no_unwind P (n + m) (start h s1) /\
+    forall j, (j < m)%nat -> seg_mode t (c_mode (run P (n + j) (start h s1))) = true.
+Proof. exact resumed_returns_tree. Qed.
+Print Assumptions C03_resumed_task_returns_to_scheduler.
